@@ -34,6 +34,7 @@ PARENTS = [None, 0, None]  # K1 subclass of K0; K2 unrelated
 # class 4: K4, a second type deriving from K0 that ADDS a property of its own; its registers are registers of K0
 # too: a view of K0 shows them as rows under K0's columns
 OWN = "own4"
+OVERRIDE_INDEX = 1
 
 
 def build(case):
@@ -51,7 +52,12 @@ def build(case):
     K0 = type("K0", (Register,), ns)
     K1 = type("K1", (K0,), {"__slots__": []})
     K2 = type("K2", (Register,), {"__slots__": [], "other": mkprop(0)})
-    K4 = type("K4", (K0,), {"__slots__": [], OWN: mkprop(1)})
+    # K4 adds a property and OVERRIDES the first inherited one (a newer layout of the same record keeps the
+    # value somewhere else): in every view a register shows what ITS OWN property gives
+    k4 = {"__slots__": [], OWN: mkprop(1)}
+    if case["props"]:
+        k4[codec.dec_str(case["props"][0][0])] = mkprop(OVERRIDE_INDEX)
+    K4 = type("K4", (K0,), k4)
     classes = [K0, K1, K2, None, K4]
     data = RegisterData(DefaultRegister(data=""))
     regs = []
@@ -169,7 +175,11 @@ def props_of(case):
     if case["type"] in (0, 1):
         return case["props"]
     if case["type"] == 4:
-        return case["props"] + [[codec.enc_str(OWN), 1]]
+        # K4's own table: the first inherited property is overridden (it reads another position)
+        ps = [list(p) for p in case["props"]]
+        if ps:
+            ps[0][1] = OVERRIDE_INDEX
+        return ps + [[codec.enc_str(OWN), 1]]
     return [[codec.enc_str("other"), 0]] if case["type"] == 2 else []
 
 
@@ -177,6 +187,11 @@ def request(case, obs):
     if "harness_exc" in obs:
         obs = {"exc": "harness"}
     regs = [[c, vals] for c, vals in case["regs"]]
+    if case["type"] in (0, 1) and case["props"]:
+        # in a view of the parent type the model reads every row through the parent's table; a K4 register
+        # answers through its own (overriding) property: hand the model the value that property gives
+        i0 = case["props"][0][1]
+        regs = [[c, (vals[:i0] + [vals[OVERRIDE_INDEX] if OVERRIDE_INDEX < len(vals) else None] + vals[i0 + 1 :]) if c == 4 and i0 < len(vals) else vals] for c, vals in regs]
     return {"op": "c20", "regs": regs, "parents": PARENTS + [None, 0], "type": case["type"], "props": props_of(case), "obs": obs}
 
 
